@@ -67,6 +67,10 @@ pub struct ReplyShape {
     pub fail: Option<u64>,
     /// server processing time before the reply is written
     pub delay_ms: u32,
+    /// a failing command prints this many field lines before its ACK (legal: MPD reports the
+    /// error when it hits it, output produced so far has already been sent)
+    #[serde(default)]
+    pub partial_fields: u32,
 }
 
 #[derive(Clone, Debug, PartialEq, Eq, Serialize, Deserialize)]
@@ -199,6 +203,9 @@ pub struct Picture {
     /// forced error code on `readpicture` / `albumart`
     pub readpicture_error: Option<u64>,
     pub albumart_error: Option<u64>,
+    /// chunk requests at an offset > 0 and >= .0 fail with ACK code .1 (file vanished, I/O error)
+    #[serde(default)]
+    pub later_error: Option<(u64, u64)>,
 }
 
 #[derive(Clone, Debug, PartialEq, Eq, Serialize, Deserialize)]
